@@ -231,6 +231,10 @@ func (r *Run) Finish() int {
 		os.MkdirAll(dir, 0o755)
 		for i, v := range r.viol {
 			if i >= 20 {
+				if os.Getenv("VERIF_ALL") != "" {
+					fmt.Printf("  [more] %s\n", v.Msg)
+					continue
+				}
 				break
 			}
 			p := filepath.Join(dir, fmt.Sprintf("%s-%03d.json", r.Tier, i))
